@@ -409,6 +409,19 @@ def run(ctx):
     for fn in ("model::MDL::remove_shape_meshes", "model::MDL::add_shape_mesh"):
         b_ = prog.body(fn)
         ctx.ob("EDIT", f"{fn.split('::')[-1]}|updates-headers", bool(b_) and any((t_.get("res") or "").endswith("MDL::update_headers") for _bi, t_ in b_.calls()), f"{fn} recomputes the headers", b_.file if b_ else None, b_.line if b_ else None, trivial=True)
+    # every edit that changes how many vertices a part holds stores the new count in the mesh record before the headers
+    # are recomputed (update_headers sizes every vertex section as vertex_count x stride)
+    for efn in ("model::MDL::add_shape_mesh",):
+        ab2 = prog.body(efn)
+        if not ab2:
+            ctx.fail_closed("EDIT", f"{efn} not found")
+            continue
+        aix2 = index_of(ab2)
+        grows = [bi_ for bi_, t_ in ab2.calls() if (t_.get("res") or "").split("::")[-1] in ("push", "extend", "extend_from_slice", "append", "insert", "resize") and "vertices" in derive(aix2, t_["args"][0]).names]
+        fa2, _e2 = field_assigns(ab2)
+        stores = [(n_, d_) for n_, d_, _s, _b in fa2 if n_[-1] == "vertex_count"]
+        okc = bool(stores) and all("vertices" in d_.names and any(c_.endswith("::len") for c_ in d_.calls) for _n, d_ in stores)
+        ctx.ob("EDIT", f"{efn.split('::')[-1]}|vertex-count", (not grows) or okc, f"{efn} appends to part.vertices at {len(grows)} site(s) and stores mesh.vertex_count {len(stores)} time(s) from {[sorted(d_.names & {'vertices', 'vertex_count'}) for _n, d_ in stores]}; the count must become part.vertices.len()", ab2.file, ab2.line)
     uhb = prog.body("model::MDL::update_headers")
     if not uhb:
         ctx.fail_closed("EDIT", "model::MDL::update_headers not found")
